@@ -25,7 +25,7 @@ ASSUMPTIONS = [
     "constant_multiplier without register_multiplier has no operand with the same present components: it must match nothing (rejecting the rule is accepted)",
     "segment-prefixed and *-operands are outside the statement",
 ]
-FLOORS = {"mnemonic=ends-in-ss": 0.1, "form=addr16": 0.06, "route=real": 0.3, "route=rendered": 0.3, "cand=same": 0.45, "cand=disp-changed": 0.3, "cand=base-changed": 0.3, "cand=scale-changed": 0.1, "cand=index-changed": 0.1}
+FLOORS = {"mnemonic=ends-in-ss": 0.1, "form=addr16": 0.06, "route=real": 0.3, "route=rendered": 0.3, "cand=same": 0.45, "cand=disp-changed": 0.3, "cand=base-changed": 0.3, "cand=scale-changed": 0.1, "cand=index-changed": 0.1, "cand=segment-prefixed": 0.2}
 REGS = list(range(16))
 
 
@@ -83,7 +83,7 @@ def cases(draw):
     cands = []
     for _ in range(draw(st.integers(8, 28))):
         kind = draw(st.sampled_from(["same", "same", "base-changed", "index-changed", "scale-changed", "disp-changed", "disp-changed", "disp-dropped", "disp-added",
-                                     "index-dropped", "index-added", "swapped", "register", "immediate", "other-position", "base-dropped", "riz-index"]))
+                                     "index-dropped", "index-added", "swapped", "register", "immediate", "other-position", "base-dropped", "riz-index", "segment-prefixed"]))
         c = dict(ref)
         c["pos"] = pos
         if kind == "base-changed" and not rip:
@@ -114,6 +114,9 @@ def cases(draw):
             c["index"] = None
             c["riz"] = True
             c["scale"] = draw(st.sampled_from([1, 2, 4, 8]))
+        elif kind == "segment-prefixed" and not rip:
+            # the rule's own operand with a segment override in front (%fs:0x28(%rax)): an extra component, never a match
+            c["seg"] = draw(st.sampled_from(["%fs", "%gs"]))
         elif kind == "other-position":
             c["pos"] = 3 - pos
         elif kind in ("register", "immediate"):
@@ -190,6 +193,8 @@ def cand_att(c, addr32, mn="mov"):
         return [other, reg]
     a, b, sc, k = x86enc.att_mem(c["base"], c["index"], c["scale"], c["disp"], addr32, c["rip"], riz=c.get("riz", False))
     mem = (k or "") + "(" + (a or "") + (f",{b},{sc}" if b else "") + ")"
+    if c.get("seg"):
+        mem = c["seg"] + ":" + mem
     return [mem, reg] if c["pos"] == 1 else [reg, mem]
 
 
@@ -201,15 +206,29 @@ def cand_bytes(c, addr32, mn="mov"):
         r, s = c["reg"], (c["reg"] + 3) % 16
         return bytes([0x48 | ((s >> 3) << 2) | (r >> 3), 0x89, 0xC0 | ((s & 7) << 3) | (r & 7)])
     op = "mov-load" if c["pos"] == 1 else "mov-store"
-    return x86enc.encode_mem(op, c["reg"], base=c["base"], index=c["index"], scale=c["scale"], disp=c["disp"], addr32=addr32 and not c["rip"], rip=c["rip"], riz=c.get("riz", False),
-                             mn=None if mn == "mov" else mn)
+    enc = x86enc.encode_mem(op, c["reg"], base=c["base"], index=c["index"], scale=c["scale"], disp=c["disp"], addr32=addr32 and not c["rip"], rip=c["rip"], riz=c.get("riz", False),
+                            mn=None if mn == "mov" else mn)
+    return ({"%fs": b"\x64", "%gs": b"\x65"}[c["seg"]] if c.get("seg") else b"") + enc
 
 
 def _norm(o):
     """Normal form of an operand of the candidate instructions: the C09 forms, and vector registers as they are."""
     import re
 
-    return o if re.match(r"%[xyz]mm[0-9]+\Z", o) else normal_form(o, pseudo_index=True)
+    if re.match(r"%[xyz]mm[0-9]+\Z", o):
+        return o
+    m = re.match(r"(%[cdefgs]s):(.*\))\Z", o)
+    if m:
+        # a segment override in front of a memory reference is outside the forms C09 lists; the stream's own convention puts it in
+        # front of the displacement: %fs:0x28(%rax) -> [%rax+%fs:0x28], %gs:(%rdx) -> [%rdx+%gs:]
+        inner = normal_form(("0x0" if m.group(2).startswith("(") else "") + m.group(2), pseudo_index=True)
+        if inner is None:
+            return None
+        if m.group(2).startswith("("):
+            return inner[:-len("0x0]")] + m.group(1) + ":]"
+        k = m.group(2).split("(")[0]
+        return inner[:-len(k) - 1] + m.group(1) + ":" + k + "]"
+    return normal_form(o, pseudo_index=True)
 
 
 def evaluate(case):
